@@ -29,6 +29,8 @@ type Table struct {
 	IsMap   bool
 	Props   []string
 	Pos     string
+	defined bool
+	valSort *Sort
 }
 
 func (p *Program) tableOfRef(t *Term) *Table {
@@ -144,38 +146,67 @@ func (p *Program) loadTable(td *TableDecl) error {
 
 // domTerm: key membership for map tables, index range for slice tables
 func (tb *Table) domTerm(k *Term) *Term {
-	if !tb.IsMap {
-		return And(Le(IntLit(0), k), Lt(k, IntLit(int64(len(tb.Entries)))))
-	}
-	var ds []*Term
-	for _, e := range tb.Entries {
-		ds = append(ds, Eq(k, e.K))
-	}
-	return Or(ds...)
+	tb.define()
+	return App(tb.sym("dom"), SBool, k)
 }
 
 // valTerm: value at key (zero value when absent)
 func (tb *Table) valTerm(k *Term) *Term {
-	var elemT types.Type
-	switch u := tb.Typ.Underlying().(type) {
-	case *types.Map:
-		elemT = u.Elem()
-	case *types.Slice:
-		elemT = u.Elem()
-	}
-	if sortOf(elemT) == SSlice {
+	tb.define()
+	if tb.valSort == nil {
 		unsupp("table %s: nested value used as a scalar", tb.Name)
 	}
-	r := zeroOf(elemT)
-	for i := len(tb.Entries) - 1; i >= 0; i-- {
-		e := tb.Entries[i]
-		key := e.K
-		if !tb.IsMap {
-			key = IntLit(int64(i))
-		}
-		r = Ite(Eq(k, key), e.V, r)
+	return App(tb.sym("val"), tb.valSort, k)
+}
+
+func (tb *Table) sym(part string) string { return "tbl." + tb.Name + "." + part }
+
+func (tb *Table) define() {
+	if tb.defined {
+		return
 	}
-	return r
+	tb.defined = true
+	var elemT, keyT types.Type
+	switch u := tb.Typ.Underlying().(type) {
+	case *types.Map:
+		elemT, keyT = u.Elem(), u.Key()
+	case *types.Slice:
+		elemT, keyT = u.Elem(), tInt
+	}
+	ks := sortOf(keyT)
+	k := Var("k", ks)
+	var dom *Term
+	if !tb.IsMap {
+		dom = And(Le(IntLit(0), k), Lt(k, IntLit(int64(len(tb.Entries)))))
+	} else {
+		var ds []*Term
+		for _, e := range tb.Entries {
+			ds = append(ds, Eq(k, e.K))
+		}
+		dom = Or(ds...)
+	}
+	var lits []string
+	for _, e := range tb.Entries {
+		if e.K != nil && e.K.Op == "strlit" {
+			lits = append(lits, e.K.Name)
+		}
+	}
+	TB.funs[tb.sym("dom")] = &FunDecl{Name: tb.sym("dom"), Args: []*Sort{ks}, Ret: SBool, Lits: lits, Def: fmt.Sprintf("(define-fun %s ((|k| %s)) Bool %s)\n", tb.sym("dom"), ks.Name, dom.String())}
+	TB.funOrd = append(TB.funOrd, tb.sym("dom"))
+	if sortOf(elemT) != SSlice && sortOf(elemT) != nil {
+		tb.valSort = sortOf(elemT)
+		r := zeroOf(elemT)
+		for i := len(tb.Entries) - 1; i >= 0; i-- {
+			e := tb.Entries[i]
+			key := e.K
+			if !tb.IsMap {
+				key = IntLit(int64(i))
+			}
+			r = Ite(Eq(k, key), e.V, r)
+		}
+		TB.funs[tb.sym("val")] = &FunDecl{Name: tb.sym("val"), Args: []*Sort{ks}, Ret: tb.valSort, Lits: lits, Def: fmt.Sprintf("(define-fun %s ((|k| %s)) %s %s)\n", tb.sym("val"), ks.Name, tb.valSort.Name, r.String())}
+		TB.funOrd = append(TB.funOrd, tb.sym("val"))
+	}
 }
 
 // subLen / subAt for nested tables (map[K][]V or [][]V)
